@@ -260,8 +260,9 @@ class Ctx:
         exe = os.path.join(ddir, "driver")
         with Lock("driver"):
             srcs = [os.path.join(COQ, "Extract", "Extract.v"), os.path.join(VERIF, "ocaml", "driver.ml")]
-            for d, _, fs in os.walk(os.path.join(COQ, "Model")):
-                srcs += [os.path.join(d, f) for f in fs if f.endswith(".v")]
+            for sub in ("Model", "Proof"):          # (Proof/RoundTrip.v and Proof/RenderLex.v define the extracted fragment predicates)
+                for d, _, fs in os.walk(os.path.join(COQ, sub)):
+                    srcs += [os.path.join(d, f) for f in fs if f.endswith(".v")]
             srcs += [os.path.join(COQ, "Base", f) for f in os.listdir(os.path.join(COQ, "Base")) if f.endswith(".v")]
             newest = max(os.path.getmtime(s) for s in srcs)
             if not (os.path.exists(exe) and os.path.getmtime(exe) >= newest):
